@@ -617,7 +617,7 @@ class IH5Group(IH5InnerNode):
         self._guard_open()
         self._guard_read_only()
         self._guard_key(path)
-        self._guard_value(data)
+        self._guard_value(data, dtype, shape)
 
         if unknown_kwargs := set(kwargs.keys()) - {"compression", "compression_opts"}:
             raise ValueError(f"Unkown kwargs: {unknown_kwargs}")
